@@ -3,13 +3,14 @@ CONSTANTS
   Kind = "bind"
   CtxSet = {"mixin", "function", "content"}
   MaxParams = 3
-  DefSet = {"req", "const", "ref1", "ref2", "glob"}
+  DefSet = {"req", "const", "ref1", "ref2", "glob", "next"}
   RestSet = {0, 1}
   MaxPos = 4
   NamedPool = {"a", "b-x", "b_x", "c", "r", "z"}
-  MaxNamed = 3
-  PSplats = {"none", "all", "tail"}
-  NSplats = {"none", "all"}
+  MaxNamed = 2
+  MapPool = {"a", "c", "z"}
+  MaxMap = 2
+  PSplats = {"none", "all", "tail", "fwd"}
   ItemSet = {}
   MaxItems = 0
 INVARIANTS LawHolds LawWellFormed Emit
